@@ -118,7 +118,8 @@ def _free_backup_path(path: str) -> str:
     return candidate
 
 
-def _migrate_csv_to_rules(csv_file: str, config_dir: str, backup: bool = True) -> bool:
+def _migrate_csv_to_rules(csv_file: str, config_dir: str, backup: bool = True,
+                          settings_file: str = 'settings.yaml') -> bool:
     """
     Migrate merchant_categories.csv to merchants.rules format.
 
@@ -131,6 +132,8 @@ def _migrate_csv_to_rules(csv_file: str, config_dir: str, backup: bool = True) -
         csv_file: Path to the CSV file
         config_dir: Path to config directory
         backup: Whether to rename old CSV to .bak
+        settings_file: Name of the settings file in use (the one that must
+            be pointed at the new rules file)
 
     Returns:
         True if migration was successful
@@ -156,7 +159,7 @@ def _migrate_csv_to_rules(csv_file: str, config_dir: str, backup: bool = True) -
         print(f"      Converted {len(csv_rules)} merchant rules to new format")
 
         # Update settings.yaml to reference new file (before the CSV goes away)
-        settings_path = os.path.join(config_dir, 'settings.yaml')
+        settings_path = os.path.join(config_dir, settings_file)
         if os.path.exists(settings_path):
             # newline='' - keep the user's line endings: the file is written back below
             with open(settings_path, 'r', encoding='utf-8', newline='') as f:
@@ -164,7 +167,7 @@ def _migrate_csv_to_rules(csv_file: str, config_dir: str, backup: bool = True) -
             # Ask the settings loader, not the text: a comment mentioning the key, or a
             # key without a value ("merchants_file:"), does not configure a rules file
             try:
-                current_settings = load_settings(config_dir) or {}
+                current_settings = load_settings(config_dir, settings_file) or {}
             except Exception:
                 current_settings = {}
             if not (isinstance(current_settings, dict) and current_settings.get('merchants_file')):
@@ -174,7 +177,7 @@ def _migrate_csv_to_rules(csv_file: str, config_dir: str, backup: bool = True) -
                     + '\n# Merchant rules file (migrated from CSV)\n'
                     + 'merchants_file: config/merchants.rules\n'
                 )
-                print(f"  {C.GREEN}✓{C.RESET} Updated: config/settings.yaml")
+                print(f"  {C.GREEN}✓{C.RESET} Updated: config/{settings_file}")
                 print(f"      Added merchants_file: config/merchants.rules")
 
         # Backup old file
@@ -189,7 +192,8 @@ def _migrate_csv_to_rules(csv_file: str, config_dir: str, backup: bool = True) -
         return False
 
 
-def _check_merchant_migration(config: dict, config_dir: str, quiet: bool = False, migrate: bool = False) -> list:
+def _check_merchant_migration(config: dict, config_dir: str, quiet: bool = False, migrate: bool = False,
+                              settings_file: str = 'settings.yaml') -> list:
     """
     Check if merchant rules should be migrated from CSV to .rules format.
 
@@ -198,6 +202,7 @@ def _check_merchant_migration(config: dict, config_dir: str, quiet: bool = False
         config_dir: Path to config directory
         quiet: Suppress output
         migrate: Force migration without prompting (for non-interactive use)
+        settings_file: Name of the settings file the budget is run with
 
     Returns:
         List of merchant rules (in the format expected by existing code)
@@ -251,7 +256,7 @@ def _check_merchant_migration(config: dict, config_dir: str, quiet: bool = False
             # Perform migration using shared helper
             print(f"{C.CYAN}Migrating to new format...{C.RESET}")
             print()
-            if _migrate_csv_to_rules(merchants_file, config_dir, backup=True):
+            if _migrate_csv_to_rules(merchants_file, config_dir, backup=True, settings_file=settings_file):
                 print()
                 print(f"{C.GREEN}Migration complete!{C.RESET} Your rules now support expressions.")
                 print()
